@@ -59,12 +59,19 @@ def check_readd(case):
     conf = with_phases(base, PH2, assign)
     s = build(conf)
     quiet_call(s.solve)
-    s.del_comp(root)
-    for c in base["comps"]:
-        if c["n"] in sub:
-            s.add_comp(c["p"][0], comp=make_comp(c))
-    res.stats["transitions"] += len(sub) + 2
-    expected = with_phases(base, PH2, {})
+    if case.get("mode") == "replace":
+        # the configured root is REPLACED under the same name after an analysis: only its own configuration is reset
+        rootc = [c for c in base["comps"] if c["n"] == root][0]
+        s.change_comp(root, comp=make_comp(rootc))
+        expected = with_phases(base, PH2, {k: v for k, v in assign.items() if k != root})
+        res.stats["transitions"] += 3
+    else:
+        s.del_comp(root)
+        for c in base["comps"]:
+            if c["n"] in sub:
+                s.add_comp(c["p"][0], comp=make_comp(c))
+        res.stats["transitions"] += len(sub) + 2
+        expected = with_phases(base, PH2, {})
     try:
         df, _ = quiet_call(s.solve)
     except Exception as e:
@@ -88,6 +95,8 @@ def check_case(case):
     base = spec_from_forest(case["f"], case["pal"], case.get("pol", 1), case["srs"])
     names = [c["n"] for c in base["comps"]]
     spec = with_phases(base, phases, dict(zip(names, case["assign"])))
+    if case.get("pc_first"):
+        spec["pc_first"] = True
     s, obs = phys.solve_and_check(res, spec, WANT)
     if obs is None:
         return res
@@ -157,6 +166,8 @@ def gen_cases(tier):
                 opts = [pc_options(c, phases, full) for c in base["comps"]]
                 for assign in itertools.product(*opts):
                     yield dict(f=f, pal=pal, srs=0.37, assign=list(assign), ph3=ph3)
+                    if any(a is not None and "zz" in a for a in assign):  # configured BEFORE the system phases exist
+                        yield dict(f=f, pal=pal, srs=0.37, assign=list(assign), ph3=ph3, pc_first=True)
     yield from gen_readd(tier, pal)
 
 
@@ -168,6 +179,7 @@ def gen_readd(tier, pal):
             for c in base["comps"][1:]:
                 if c["p"] == ["S"] and c["k"] not in LOADS:
                     yield dict(fam="readd", f=f, pal=pal, srs=0.37, root=c["n"])
+                    yield dict(fam="readd", f=f, pal=pal, srs=0.37, root=c["n"], mode="replace")
 
 
 def replay(doc):
